@@ -453,7 +453,7 @@ func runC10(c *core.Ctx) {
 		k := NewWalker(w, gen.NameOpts{MaxDepth: 1, N: 3}, wts)
 		k.Hostile = 6
 		k.settle = false // C10's names stay inside the alphabet of its statement
-		k.BranchNames = []string{"main", "a", "ab", "b", "a.b", "a-b", "z", "m", "ma", "main2", "A", "0", "x_y", "v1.0", "zz-top", "Main", ".hotfix", ".a", "_", "a.", "..b", "1", "-x-"[1:], ".", "..", "main.lock", "a.lock", "m_", "MAIN", "mAin", "A.B", "a.tmp", "main.tmp", "a.new", "a.bak", "tmp-a"}
+		k.BranchNames = []string{"main", "a", "ab", "b", "a.b", "a-b", "z", "m", "ma", "main2", "A", "0", "x_y", "v1.0", "zz-top", "Main", ".hotfix", ".a", "_", "a.", "..b", "1", "-x-"[1:], ".", "..", "main.lock", "a.lock", "m_", "MAIN", "mAin", "A.B", "a.tmp", "main.tmp", "a.new", "a.bak", "tmp-a", "HEAD", "HEAD", "index", "config", "refs", "heads", "objects", "logs", "ORIG_HEAD", "head"}
 		if w.Hist%5 == 2 {
 			// long names, some of them prefixes of each other: HEAD is then longer than 128 / 256 bytes
 			q := strings.Repeat("q", 111)
